@@ -464,6 +464,7 @@ func nspClients(t *testing.T, h *H) {
 				c.OnEvent("down", func(tag string) { mu.Lock(); cliGot[nn] = append(cliGot[nn], tag); mu.Unlock() })
 				c.OnEvent("downb", func(tag string, b sio.Binary) { mu.Lock(); cliGot[nn] = append(cliGot[nn], tag); mu.Unlock() })
 				c.OnConnect(func() {
+					time.Sleep(5 * time.Millisecond) // the server application's connection handler has registered its handlers by then (D40)
 					for j := 0; j < 3; j++ {
 						tag := fmt.Sprintf("%s#%d", nn, j)
 						if (i+j)%2 == 0 {
